@@ -33,6 +33,10 @@ def c01 (codec : Codec) (toks : List String) : Option (Codec × String) :=
       match parseHeader a with
       | some h => pure (codec, s!"hdr={h.headerSize} size={h.archiveSize} ver={h.version} shift={h.shift} hash={h.hashPos}/{h.hashCount} block={h.blockPos}/{h.blockCount}")
       | none => pure (codec, "err header")
+  | "mpqwritetomb" :: conv :: ver :: shift :: hsize :: tombs :: files => do
+      let fs ← files.mapM fileSpecOfString
+      let ts ← (if tombs == "-" then some [] else (tombs.splitOn ",").mapM bytesOfHex)
+      pure (codec, rleEncode (writeArchiveTomb (convOfString conv) (← ver.toNat?) (← shift.toNat?) (← hsize.toNat?) ts fs))
   | "mpqwrite" :: conv :: ver :: shift :: hsize :: files => do
       let fs ← files.mapM fileSpecOfString
       pure (codec, rleEncode (writeArchive (convOfString conv) (← ver.toNat?) (← shift.toNat?) (← hsize.toNat?) fs))
